@@ -56,6 +56,34 @@ def subterms(v):
             yield from subterms(a)
 
 
+def _iter_sentinel_loop(s):
+    """`for x in iter(f, sentinel): body [else: orelse]`  ->  `while True: x = f(); if x == sentinel: orelse; break; body` (None when the loop is not of that
+    form). A zero-argument lambda is applied by substituting its body."""
+    it = s.iter
+    if not (isinstance(it, ast.Call) and isinstance(it.func, ast.Name) and it.func.id == 'iter' and len(it.args) == 2 and not it.keywords):
+        return None
+    f, sent = it.args
+    if isinstance(f, ast.Lambda):
+        a = f.args
+        if a.args or a.posonlyargs or a.kwonlyargs or a.vararg or a.kwarg:
+            return None
+        val = f.body
+    else:
+        val = ast.Call(func=f, args=[], keywords=[])
+    import copy as _copy
+    tgt_load = _copy.deepcopy(s.target)
+    for n in ast.walk(tgt_load):
+        if hasattr(n, 'ctx'):
+            n.ctx = ast.Load()
+    get = ast.Assign(targets=[s.target], value=val)
+    stop = ast.If(test=ast.Compare(left=tgt_load, ops=[ast.Eq()], comparators=[sent]), body=list(s.orelse) + [ast.Break()], orelse=[])
+    w = ast.While(test=ast.Constant(value=True), body=[get, stop] + list(s.body), orelse=[])
+    for n in ast.walk(w):
+        if not hasattr(n, 'lineno'):
+            ast.copy_location(n, s)
+    return ast.fix_missing_locations(w)
+
+
 class State:
     __slots__ = ('env', 'heap', 'facts', 'trace', 'depth', 'seq')
 
@@ -700,6 +728,8 @@ class Interp:
                 env[p] = dv[0][0]
         for p in params + fi.kwonly:
             env.setdefault(p, T('param?', p))
+        for k_, v_ in (getattr(fi, 'closure', None) or {}).items():
+            env.setdefault(k_, C(v_))           # free variables bound by a method factory (`__add__ = _make_op('add')`)
         s0 = State(env, st.heap, st.facts, st.trace, st.depth + 1, st.seq)
         self.fi_stack.append(fi)
         try:
@@ -1010,6 +1040,9 @@ class Interp:
         return None
 
     def st_For(self, s, st):
+        w = _iter_sentinel_loop(s)
+        if w is not None:
+            return self.st_While(w, st)
         out = []
         for itv, s0 in self.ev(s.iter, st):
             items = self.for_elements(s, itv, s0)
@@ -1134,6 +1167,8 @@ class Interp:
             e[fi.vararg] = T('param*', fi.vararg)
         if fi.kwarg:
             e[fi.kwarg] = T('param**', fi.kwarg)
+        for k_, v_ in (getattr(fi, 'closure', None) or {}).items():
+            e[k_] = C(v_)
         e.update(env or {})
         st = State(e, heap, facts)
         res = self.block(fi.body(), st)
